@@ -267,6 +267,62 @@ struct C08 : vr::Driver {
     c.dtOf = [](int l) { return dts[l / 2]; };
     cases.push_back(c);
   }
+  // memory_reclaim over a wildcard whose second match disappears and comes back with a fresh counter: the watched
+  // sum DROPS, and growth after the drop is growth (the sum is compared with the previous tick, not with its peak)
+  void addMemoryReclaimVanish(int duration, int T) {
+    Case c;
+    c.name = "memory_reclaim duration=" + std::to_string(duration) + " (second wildcard match removed / re-created)";
+    c.plugin = "memory_reclaim";
+    c.argsJson = "\"cgroup\":\"w/*\",\"duration\":\"" + std::to_string(duration) + "\"";
+    c.nLetters = 6;
+    c.T = T;
+    struct St {
+      long long a = 0, b = 0;
+      bool bExists = true;
+    };
+    auto st = std::make_shared<St>();
+    c.setup = [st] {
+      world::mkcg("w/a");
+      world::mkcg("w/b");
+      *st = St{};
+    };
+    auto step = [](St& s, int l) {
+      if (l == 1 || l == 5) s.a += 5;
+      if (l == 2 && s.bExists) s.b += 7;
+      if (l == 3) {
+        s.bExists = !s.bExists;
+        s.b = 0;
+      }
+    };
+    c.apply = [st, step](int l, int) {
+      bool had = st->bExists;
+      step(*st, l);
+      if (had && !st->bExists) world::rmcg("w/b");
+      if (!had && st->bExists) world::mkcg("w/b");
+      world::setMemStatKey("w/a", "pgscan", st->a);
+      if (st->bExists) world::setMemStatKey("w/b", "pgscan", st->b);
+      return l >= 4 ? 3.0 : 1.0;
+    };
+    c.expect = [duration, step](const std::vector<Sample>& h) {
+      size_t n = h.size() - 1;
+      St s;
+      long long prev = 0;
+      bool ok = false;
+      for (size_t j = 0; j <= n; j++) {
+        step(s, h[j].letter);
+        long long sum = s.a + (s.bExists ? s.b : 0);
+        if (sum > prev && h[n].t - h[j].t <= duration + 1e-9) ok = true;
+        prev = sum;
+      }
+      return ok;
+    };
+    c.letterName = [](int l) {
+      static const char* n[] = {"nothing+1s", "a.pgscan+5 +1s", "b.pgscan+7 +1s", "toggle b (remove / re-create empty) +1s", "nothing+3s", "a.pgscan+5 +3s"};
+      return std::string(n[l]);
+    };
+    c.dtOf = [](int l) { return l >= 4 ? 3.0 : 1.0; };
+    cases.push_back(c);
+  }
   void addSwapFree(int pct, long long bpsThr, int T) {
     Case c;
     c.name = "swap_free threshold_pct=" + std::to_string(pct) + (bpsThr >= 0 ? " swapout_bps_threshold=" + std::to_string(bpsThr) : "");
@@ -402,6 +458,7 @@ struct C08 : vr::Driver {
     for (int d : {0, 2, 3}) addVanishing("memory_above", d, th ? 6 : 5);
     for (int d : {0, 2}) addRisingBeyond(d, th ? 4 : 3);
     for (int d : {0, 2, 4}) addMemoryReclaim(d, th ? 5 : 4);
+    for (int d : {0, 2}) addMemoryReclaimVanish(d, th ? 6 : 5);
     for (int pct : {0, 15, 100}) addSwapFree(pct, -1, 2);
     addSwapFree(15, 800000, 3);
     addSwapFree(15, 900000, 3);
@@ -510,7 +567,7 @@ struct C08 : vr::Driver {
            "in a group: pressure_above (memory/io, duration 0/2/4; value below/equal/above threshold x clock advance 1/2/5 s; plus two cgroups with one "
            "appearing and disappearing; plus a lone wildcard match that may be absent), memory_above (threshold as '1.5G 32K', bare MB, '10%', '3G', threshold_anon; value thr-1/thr/thr+1 x advance; largest of two "
            "cgroups), pressure_rising_beyond (avg60 around threshold x avg10 40/60/80/95 incl. fast falls x advance), memory_reclaim (pgscan grows or not x "
-           "advance 1/2/5, duration 0/2/4, sum over two cgroups), swap_free (free below/equal/above pct, no swap, swap-out rate, pct 0/15/100), exists (5 "
+           "advance 1/2/5, duration 0/2/4, sum over two cgroups; plus a wildcard match that is removed / re-created so that the watched sum drops), swap_free (free below/equal/above pct, no swap, swap-out rate, pct 0/15/100), exists (5 "
            "patterns x negate over all subsets of {a,b,ab} + a matching plain file), nr_dying_descendants (count-1/count/count+1 for two cgroups, lte); oracle: the "
            "documented predicate evaluated over the WHOLE history at every tick, and the action chain runs iff it holds; non-trivial = distinct history";
   }
